@@ -9,6 +9,7 @@ import Acme.Driver.Util
 import Acme.Driver.Avl
 import Acme.Driver.CanId
 import Acme.Driver.BusLoad
+import Acme.Driver.Arith
 
 open Acme.Driver
 
@@ -22,6 +23,7 @@ def stepLine (s : DState) (line : String) : DState × String :=
   | "avl" :: rest => let (a, o) := AvlD.handle s.avl rest; ({ s with avl := a }, o)
   | "canid" :: rest => (s, CanIdD.handle rest)
   | "busload" :: rest => (s, BusLoadD.handle rest)
+  | "arith" :: rest => (s, ArithD.handle rest)
   | _ => (s, "bad-op")
 
 partial def loop (hin : IO.FS.Stream) (hout : IO.FS.Stream) (s : DState) : IO Unit := do
